@@ -65,8 +65,13 @@ pub mod env {
         pub vault_amount: Map<Own, Decimal>,
         pub total_supply: Map<ResourceAddress, Option<Decimal>>,
     }
-    pub trait SystemApiError {}
-    impl SystemApiError for RuntimeError {}
+    /// radix-engine-interface `SystemApiError` (bound of `SystemApi<E>`), with the one fact this unit uses:
+    /// ASSUMED -- a call into the vault / resource-manager blueprints never fails with a *ValidatorError*
+    /// (those are raised by validator.rs only), so such an error identifies the validator's own arithmetic.
+    pub trait SystemApiError: Sized { spec fn is_validator_error(&self) -> bool; }
+    impl SystemApiError for RuntimeError {
+        open spec fn is_validator_error(&self) -> bool { *self matches RuntimeError::ApplicationError(ApplicationError::ValidatorError(_)) }
+    }
     pub trait SystemApi<E: SystemApiError> {
         spec fn ledger(&self) -> Ledger;
     }
@@ -81,6 +86,7 @@ pub mod env {
         pub fn amount<Y: SystemApi<E>, E: SystemApiError>(&self, api: &mut Y) -> (r: Result<Decimal, E>)
             ensures final(api).ledger() == old(api).ledger(),
                     r matches Ok(a) ==> a == old(api).ledger().vault_amount[self.0] && a.v() >= 0,
+                    r matches Err(e) ==> !e.is_validator_error(),
         { unimplemented!() }
     }
     impl ResourceManager {
@@ -90,6 +96,7 @@ pub mod env {
         pub fn total_supply<Y: SystemApi<E>, E: SystemApiError>(&self, api: &mut Y) -> (r: Result<Option<Decimal>, E>)
             ensures final(api).ledger() == old(api).ledger(),
                     r matches Ok(a) ==> a == old(api).ledger().total_supply[self.0] && (a matches Some(s) ==> s.v() >= 0),
+                    r matches Err(e) ==> !e.is_validator_error(),
         { unimplemented!() }
     }
 }
@@ -302,6 +309,8 @@ pub mod unit {
                     let s = old(api).ledger().total_supply[validator_substate.stake_unit_resource]->Some_0.v();
                     &&& (ret matches Ok(x) ==> x.v() == redemption(amount_of_stake_units.v(), t, s) && redemption_ok(amount_of_stake_units.v(), t, s))
                     &&& (!redemption_ok(amount_of_stake_units.v(), t, s) ==> ret is Err)
+                    // the only error of its own is the overflow error, raised only when the computation does overflow
+                    &&& (ret matches Err(e) ==> (e.is_validator_error() ==> e == computation_error() && !redemption_ok(amount_of_stake_units.v(), t, s)))
                 }),
         @closure 1 := |amount: Decimal| -> (r: Option<Decimal>) ensures r == (if in_dec(dec_mul(amount_of_stake_units.v(), amount.v())) { Some(Decimal::of(dec_mul(amount_of_stake_units.v(), amount.v()))) } else { None })
         @*/
@@ -320,7 +329,7 @@ pub mod unit {
     @entry
         proof { lemma_sort_prefix_steps(stake.v()); }
     @closure 1 := |power: Decimal| -> (r: Option<Decimal>) ensures r == (if power.v() != 0 && in_dec(dec_div(stake_100k.v(), power.v())) { Some(Decimal::of(dec_div(stake_100k.v(), power.v()))) } else { None })
-    @subst <<(u16::MAX - stake_u16).to_be_bytes()>> => <<u16_to_be_bytes(u16::MAX - stake_u16)>> why: Verus cannot attach a spec to u16::to_be_bytes (std signature has an anonymous-const array length); u16_to_be_bytes in shims/decimal_validator_ext.rs is that call with the big-endian contract
+    @subst <<.to_be_bytes()>> => <<.to_be_bytes_u16()>> why: Verus cannot attach a spec to u16::to_be_bytes (std signature has an anonymous-const array length); to_be_bytes_u16 in shims/decimal_validator_ext.rs is that call with the big-endian contract
     @*/
 }
 } // verus!
